@@ -148,6 +148,12 @@ def tree():
     put('home/secret.txt', OUT_MARK)
     put('home/pub/page.txt', OUT_MARK)
     put('home/pub/secret.txt', OUT_MARK)
+    # roots whose legal names begin or end with white space; the stripped name is a different (decoy) directory
+    for d in ('root ', ' root', 'root\n', '\troot', ' ', 'root  '):
+        put('base/' + d + '/index.html', IN_MARK)
+        put('base/' + d + '/only_in_blank.txt', IN_MARK)
+    put('base/index.html', OUT_MARK)
+    put('base/root/a%20b.txt', IN_MARK)
     # a tree with the SAME relative names beside the application script (sys.modules['__main__'].__file__), for
     # relative roots: the root is resolved against the working directory, not against the script's directory
     put('scriptdir/main.py', OUT_MARK)
@@ -186,6 +192,7 @@ ROOTS = [
     ('/{T}/base/root', '{T}'), ('//{T}/base/root', '{T}'), ('{T}/base/nonexistent', '{T}'),
     ('{T}/base/root\\', '{T}'), ('{T}//base///root', '{T}'), ('{T}/base', '{T}'), ('{T}', '/'),
     ('../../../../../../../../../..', '{T}/base/work'), ('root', '/'), ('public', '{T}/base'), ('root', '{T}/scriptdir'),
+    ('{T}/base/root ', '{T}'), (' root', '{T}/base'), ('root\n', '{T}/base'), (' ', '{T}/base'), ('{T}/base/ /', '{T}'), ('root  ', '{T}/base'),
     ('~', '{T}/base'), ('~/', '{T}/base'), ('~/pub', '{T}/base'), ('~x', '{T}/base'), ('$HOME', '{T}/base'), ('${DECOY}/pub', '{T}/base'),
     ('{T}/base/$DECOY', '{T}'), ('a$DECOYX', '{T}/base'), ('./~', '{T}/base'),
     ('{T}/base/Root', '{T}'), ('{T}/BASE/root', '{T}'), ('Root', '{T}/base'),
@@ -245,6 +252,15 @@ def corpus():
         mk(A, '{T}', 'index.html', deny=['isfile']),
         mk(A, '{T}', 'index.html', deny=['exists']),
         mk(A, '{T}', '../root2/secret.txt', method='HEAD', rng='bytes=0-1'),
+        # percent-escapes in a name are not decoded (seeded change C16/19)
+        mk(A, '{T}', '%2e%2e/decoy.txt'), mk(A, '{T}', '..%2fdecoy.txt'), mk(A, '{T}', 'sub/%2e%2e/%2e%2e/decoy.txt'),
+        mk(A, '{T}', '%2e%2e/root2/secret.txt'), mk(A, '{T}', '%2e%2e%2froot2%2fsecret.txt'), mk('root', '{T}/base', '%2E%2E/%2E%2E/top.txt'),
+        mk(A, '{T}', 'a%20b.txt'), mk(A, '{T}', 'sub%2fpage.txt'),
+        # white space at the ends of a root's name belongs to the name (seeded change C16/20)
+        mk(A + ' ', '{T}', 'index.html'), mk(A + ' ', '{T}', 'only_in_blank.txt'), mk(A + ' /', '{T}', 'index.html'),
+        mk('{T}/base/ root', '{T}', 'index.html'), mk(' root', '{T}/base', 'index.html'), mk('root\n', '{T}/base', 'index.html'),
+        mk('\troot', '{T}/base', 'sub/page.txt'), mk('{T}/base/ ', '{T}', 'index.html'), mk(' ', '{T}/base', 'index.html'),
+        mk(' ', '{T}/base', 'root/index.html'), mk('root  ', '{T}/base', 'index.html', root_kind='path'), mk(A + ' ', '{T}', '../root/index.html'),
         # '~' and '$NAME' in a root are literal directory names (seeded change C16/16); HOME / DECOY point at a decoy tree
         mk('~', '{T}/base', 'index.html', env=ENVX), mk('~/', '{T}/base', 'secret.txt', env=ENVX), mk('~/pub', '{T}/base', 'page.txt', env=ENVX),
         mk('~/pub', '{T}/base', 'secret.txt', env=ENVX), mk('~x', '{T}/base', 'index.html', env=ENVX), mk('~root', '{T}/base', 'index.html', env=ENVX),
@@ -292,7 +308,7 @@ def corpus():
     return out
 
 
-GOOD = [['arch.tar.gz'], ['only_beside_script.txt'], ['secret.txt'], ['page.txt'], ['pub', 'secret.txt'], ['index.html'], ['sub', 'page.txt'], ['sub', 'deep', 'x.txt'], ['root2', 'inner.txt'], ['a b.txt'],
+GOOD = [['only_in_blank.txt'], ['arch.tar.gz'], ['only_beside_script.txt'], ['secret.txt'], ['page.txt'], ['pub', 'secret.txt'], ['index.html'], ['sub', 'page.txt'], ['sub', 'deep', 'x.txt'], ['root2', 'inner.txt'], ['a b.txt'],
         ['back\\slash.txt'], ['emptydir'], ['sub']]
 ESCAPES = [['..', 'root2', 'secret.txt'], ['..', 'root2', 'index.html'], ['..', 'rootX', 'secret.txt'],
            ['..', 'roo', 'secret.txt'], ['..', 'decoy.txt'], ['..', '..', 'top.txt'], ['..', 'root', 'index.html'],
@@ -309,7 +325,11 @@ ESCAPES = [['..', 'root2', 'secret.txt'], ['..', 'root2', 'index.html'], ['..', 
            ['\uff0e\uff0e', '\uff0e\uff0e', 'top.txt'], ['\u2024\u2024', 'rootX', 'secret.txt'], ['sub', '\u2025', '\u2025', 'decoy.txt'],
            ['\u2025\uff0froot2\uff0fsecret.txt'], ['\uff0e\uff0e\uff0fdecoy.txt'], ['\u2025\uff3croot2\uff3csecret.txt'],
            ['\ufe52\ufe52', 'decoy.txt'], ['\u2025\ufe68..', 'decoy.txt'], ['\uff0e\uff0e', 'top.txt'], ['sub', '\u2024\u2024', 'index.html'],
-           ['\u2026', 'decoy.txt'], ['a\uff0fb.txt']]
+           ['\u2026', 'decoy.txt'], ['a\uff0fb.txt'],
+           # percent-escapes are ordinary characters of a file name (seeded change C16/19)
+           ['%2e%2e', 'decoy.txt'], ['..%2fdecoy.txt'], ['sub', '%2e%2e', '%2e%2e', 'decoy.txt'], ['%2E%2E', 'root2', 'secret.txt'],
+           ['%2e%2e%2froot2%2fsecret.txt'], ['%2e.', 'rootX', 'secret.txt'], ['.%2e', '.%2E', 'top.txt'], ['..%5croot2%5csecret.txt'],
+           ['%252e%252e', 'decoy.txt'], ['sub%2f..%2f..%2fdecoy.txt'], ['a%20b.txt'], ['%2e%2e', 'root', 'index.html']]
 
 
 def mutate(rng, segs):
